@@ -41,7 +41,7 @@ class Spec(CheckSpec):
         # a quiet defender that removes an application right after a threat actor installed it (inside a multi-action stage)
         for k in range(16 if tier == "quick" else 200):
             s = base_seed * 1000003 + 994000 + k
-            yield {"seed": s, "shipped": "uc7_config.yaml" if k % 4 else "uc7_config_tap003.yaml", "tap_variation": s, "max_episode_length": 128, "n_ops": 120, "monitors": ["c19"], "ambush": 0.9 if k % 2 else 0.6, "op_mix": {"step": 0.95, "reset": 0.0, "fault": 0.05}}
+            yield {"seed": s, "shipped": "uc7_config.yaml" if k % 4 else "uc7_config_tap003.yaml", "tap_variation": s, "max_episode_length": 128, "n_ops": 120, "monitors": ["c19"], "ambush": 0.9 if k % 2 else 0.6, "ambush_mode": "flap" if k % 4 in (1, 2) else "uninstall", "tap_fast": k % 4 != 0, "op_mix": {"step": 0.95, "reset": 0.0, "fault": 0.05}}
         for i in range(n):
             seed = base_seed * 1000003 + 190000000 + i
             prof = {"obs": False, "n_green": (1, 3), "n_red": (1, 3), "episode_len": (25, 50), "tight_links": 0.05, "action_map_size": (8, 24)}
